@@ -34,6 +34,7 @@ for py, nq in (("3.12", 1600), ("3.11", 800), ("3.10", 800), ("3.9", 800)):
     LEGS.append({"name": "twinref" + tag, "python": py, "quick": nq // 2, "thorough": nq * 10, "quick_s": 30, "thorough_s": 200, "params": {"trickery": False}, "crash_is_violation": True})
 
 _checked_process = [False]
+STRICT_NO_GC = True
 
 
 def leftover_generators():
@@ -66,7 +67,22 @@ class PureBattery(observe.Battery):
         # by `as`, `self` of a running method) legitimately gain a reference from
         # the frame's own f_locals snapshot once anyone reads frame.f_locals
         objs = W.live_sentinels()
-        return objs, len(objs)
+        nsent = len(objs)
+        # managers that are entered (not entering / exiting, so no method of theirs has a
+        # frame with `self`), were not pre-bound to a local, and are not exit stacks (whose
+        # __enter__ returns the stack itself): reachable from the program only through the
+        # bound __exit__ on a value stack / an exit stack's callback list
+        prebound = set()
+        for key, info in getattr(W.prog, "items", {}).items():
+            if info.get("prebound"):
+                prebound.add(key)
+        for rec in W.frames:
+            for e in rec.shadow:
+                m = e.mgr
+                if e.state != "entered" or not hasattr(m, "enter_script") or (rec.name, e.k) in prebound:
+                    continue
+                objs.append(m)
+        return objs, nsent
 
     def measure(self, objs):
         return [sys.getrefcount(o) for o in objs]
@@ -81,6 +97,9 @@ class PureBattery(observe.Battery):
         rc0 = self.measure(objs)
         reps = 1 + self.rng.randrange(3)
         import stackscope
+        from .c05 import all_stacks
+
+        had_error = False
 
         for target in fn_list:
             prev = None
@@ -88,12 +107,29 @@ class PureBattery(observe.Battery):
                 # one call site, so the calling frame (this one) is the same
                 # object on the same line in every repetition
                 st = stackscope.extract(target)
+                if any(s_.error is not None for (s_, _d) in all_stacks(st)):
+                    # a recorded exception references, through its traceback, the frames of the
+                    # extraction that caught it (and they reference it): that is cyclic garbage by
+                    # nature, released by the collector; the no-GC clause is only for clean extractions
+                    had_error = True
                 if prev is not None and st.error is None and prev.error is None:
                     ctx.stat("equal_pairs")
                     if not (st == prev):
                         raise Violation("c06_repeat_differs", "%s: two consecutive extractions of an unchanged target differ:\n%s\n---\n%s" % (label, prev, st), {"label": label})
                 prev = st
             del st, prev
+        # this very frame is part of the running stacks we extract, so stackscope has
+        # read its f_locals; CPython keeps that snapshot dict on the frame, with the Stack
+        # objects `st` / `prev` in it, until f_locals is read again: refresh it
+        sys._getframe(0).f_locals
+        rc_now = self.measure(objs)
+        if rc_now != rc0 and STRICT_NO_GC and not had_error:
+            diffs = [(type(o).__name__, a, b) for o, a, b in zip(objs, rc0, rc_now) if a != b]
+            raise Violation(
+                "c06_refcount_needs_gc",
+                "%s: after dropping the results, reference counts are back to baseline only after a cyclic-GC pass: %r (type, before, after drop)" % (label, diffs[:5]),
+                {"label": label},
+            )
         gc.collect()
         rc1 = self.measure(objs)
         if rc0 != rc1:
@@ -128,6 +164,11 @@ class PureBattery(observe.Battery):
             if W.rec_of(fr) is not None:
                 outer = fr
             fr = fr.f_back
+        if outer is None:
+            # no world frame is linked on this thread's stack (exception being delivered
+            # through a non-generator awaitable): nothing of the world to observe from here,
+            # and a slice without an outer frame would read the harness's own frames
+            return None
         fns = [stackscope.StackSlice(outer=outer)]
         if outer is W.frames[0].pyframe:
             # the root task's own frame is on this thread's stack: it is running
